@@ -148,6 +148,9 @@ func main() {
 						})
 					}
 					if calls {
+						// before as well: a reader that loads the state a second
+						// time gets a scheduling point between its two loads
+						add(st.Pos(), fmt.Sprintf("verifYield(%q); ", site(fname, "before-load")))
 						add(st.End(), fmt.Sprintf("; verifYield(%q)", site(fname, "after-load")))
 					}
 				}
